@@ -63,11 +63,16 @@ package config
 //@   at call tools.CleanPaths:1 assert arg0__ == patterns && arg1__ == ","
 //@   ensures result == lastclean(0)
 //@   monitor lastfx[0] := result
+// (C04 too: the include / exclude patterns of fetch, pull and checkout.)  Checked
+// against the body: every element of the split list yields exactly one pattern,
+// which is that element with surrounding blanks removed and at most one trailing
+// separator cut off - nothing inside a pattern (a backslash escape, say) is touched.
 //@ func github.com/git-lfs/git-lfs/v3/tools.CleanPaths
 //@   assumed
-//@   props C13 C14
+//@   props C13 C14 C04
 //@   modifies fresh, ghost lastclean[0]
 //@   ensures result == cleanpaths(paths, delim) && lastclean(0) == result
+//@   loop 1 iter len(cleaned) == iter(len(cleaned)) + 1 && (cleaned[iter(len(cleaned))] == str_trim(typed(str_split(paths, delim), "[]string")[iter(rangeindex) + 1]) || cleaned[iter(len(cleaned))] == gocall("strings.TrimSuffix", 0, str_trim(typed(str_split(paths, delim), "[]string")[iter(rangeindex) + 1]), "/") || cleaned[iter(len(cleaned))] == gocall("strings.TrimSuffix", 0, str_trim(typed(str_split(paths, delim), "[]string")[iter(rangeindex) + 1]), "\\"))
 
 // C17 / C10: which credential.<url>.* (or http.<url>.*) entry applies to a URL.
 // While the configuration is scanned the best match only ever gets better in
